@@ -241,6 +241,10 @@ func sAnd(ts ...string) string {
 		if t == "false" {
 			return "false"
 		}
+		if strings.HasPrefix(t, "(and ") && len(t) < 20000 {
+			out = append(out, splitSexp(t[5:len(t)-1])...)
+			continue
+		}
 		out = append(out, t)
 	}
 	switch len(out) {
